@@ -8,7 +8,8 @@ PROP = "C37"
 LEAN_MODULES = ["LunaVerif.Props.C37", "LunaVerif.Props.C37Live"]
 DRIVER = "Driver/C37.lean"
 REQUIRED_THEOREMS = ["accept_iff_crcs_and_seq", "queue_delivers_accepted_in_order_once", "lgood_carries_seq",
-                     "lbad_then_ignore_until_retry", "credit_invariant", "lgood_within", "lcrd_within"]
+                     "lbad_then_ignore_until_retry", "credit_invariant", "lgood_within", "lcrd_within",
+                     "lbad_within", "lrty_within", "lxu_within", "keepalive_within"]
 RULE = ("cases = closed-loop link partner (header stream: good / bad CRC-5 / bad CRC-16 / wrong sequence / "
         "retries after LBAD, honouring credits and LGOODs) x consumer timing x link-command back-pressure x "
         "retry/keepalive/power-state strobes; plus a 'chaos' stream that ignores credits and flow control "
@@ -22,10 +23,10 @@ ASSUMPTIONS = [
     "liveness theorems only: bounded fairness of the link-command generator's sink - never K consecutive cycles "
     "without source.ready (K universally quantified)",
 ]
-PARTIAL = ("liveness is proved for LGOOD and LCRD (lgood_within, lcrd_within: within K*(40+4r) / K*(52+4r) cycles when "
-           "source.ready is granted at least once every K cycles, r = retry_required pulses in the window); that a "
-           "pending LBAD / LRTY / LXU / keepalive is eventually transmitted is checked by the monitor on the real traces "
-           "(bounded wait), not proved")
+PARTIAL = ("the liveness bounds for LXU and the keepalive count the cycles that bring new higher-priority work (header "
+           "accepted, buffer freed, corrupted header, retry_required, reject_power_state): as coded they have the lowest "
+           "priorities in DISPATCH_COMMAND and can be postponed for as long as saturating traffic lasts, so no bound in K "
+           "alone exists; the bounds for LGOOD / LCRD / LBAD count the retry_required pulses of the window (one LRTY each)")
 
 IN_NAMES = ["sink_valid", "sink_data", "sink_ctrl", "source_ready", "enable", "usb_reset", "queue_ready",
             "retry_received", "retry_required", "keepalive_required", "reject_power_state",
